@@ -19,6 +19,9 @@ import TdVerif.Lemmas.C08Stack
 import TdVerif.Lemmas.C08Two
 import TdVerif.Lemmas.C08CatN
 import TdVerif.Lemmas.C08Apply
+import TdVerif.Lemmas.C08Reduce
+import TdVerif.Lemmas.C08Resize
+import TdVerif.Lemmas.C08Shape2
 
 namespace TdVerif.Props.C08
 open TdVerif.C08
@@ -553,6 +556,76 @@ theorem apply_with_operand_refines [Inhabited α] (L : Lazy α) (b : Shape) (key
     L'.sd = L.sd ∧ L'.members.length = L.members.length ∧ absL L' ≈ (absL L).apply2 g other :=
   apply2_refines L b keys feat hU hne other hob g L' h
 
+/-- **`lazy == other`, `!=`, `<`, `<=`, `>`, `>=` with a tensordict operand** (`_dispatch_comparison`:
+members zipped strictly with `other.unbind(stack_dim)`, compared one by one, results lazily
+stacked) is the dense comparison. -/
+theorem comparison_refines [Inhabited α] (L : Lazy α) (b : Shape) (keys : List String) (feat : String → Shape)
+    (hU : Uniform L b keys feat) (hne : L.members ≠ []) (other : TD α)
+    (hob : other.batch = (absL L).batch) (cmp : α → α → Bool)
+    (L' : Lazy Bool) (h : lazyCompare L other cmp = some L') :
+    L'.sd = L.sd ∧ L'.members.length = L.members.length ∧ absL L' ≈ (absL L).apply2 cmp other :=
+  apply2_refines L b keys feat hU hne other hob cmp L' h
+
+/-- the same with a number: every member is compared with it -/
+theorem comparison_scalar_refines [Inhabited α] (L : Lazy α) (b : Shape) (keys : List String) (feat : String → Shape)
+    (hU : Uniform L b keys feat) (hne : L.members ≠ []) (c : α) (cmp : α → α → Bool) :
+    absL (lazyCompareScalar L c cmp) ≈ (absL L).apply1 (fun x => cmp x c) :=
+  apply1_refines L b keys feat hU hne _
+
+/-! ## reductions -/
+
+/-- **`lazy.all()`** — `all(value.all() for value in self.tensordicts)` — is `dense.all()`. -/
+theorem all_is_dense_all (L : Lazy Bool) (b : Shape) (keys : List String) (feat : String → Shape)
+    (hU : Uniform L b keys feat) (hne : L.members ≠ []) : lazyAll L = (absL L).allB :=
+  all_refines L b keys feat hU hne
+
+/-- **`lazy.any()`** is `dense.any()`. -/
+theorem any_is_dense_any (L : Lazy Bool) (b : Shape) (keys : List String) (feat : String → Shape)
+    (hU : Uniform L b keys feat) (hne : L.members ≠ []) : lazyAny L = (absL L).anyB :=
+  any_refines L b keys feat hU hne
+
+/-- **Reductions along a dim** (`all(dim)`, `any(dim)`, and through `to_tensordict()` `sum`, `mean`,
+`prod`, … `(dim)`): torch's reduction `red` is applied to every entry as `_get_str` returns it,
+which is the entry of the dense stack — whatever `red` is. -/
+theorem reduce_dim_is_dense [Inhabited α] (L : Lazy α) (keys : List String) (red : T α → T β)
+    (h : ∀ m ∈ L.members, ∀ k ∈ keys, k ∈ m.keys) :
+    lazyReduceEntries L keys red = some (keys.map fun k => (k, red ((absL L).leaf k))) :=
+  reduce_entries_dense L keys red h
+
+/-! ## split / chunk, repeat_interleave, repeat -/
+
+/-- **`lazy.split(sizes, dim)`** (also `chunk` and an integer `split_size`, which only compute
+`sizes`): along the stack dim the member list is sliced, along another dim every member is split
+along the shifted dim; piece `j` materialises to piece `j` of the dense split,
+`dense.narrow(dim, start_j, size_j)`. -/
+theorem split_piece_refines [Inhabited α] (L : Lazy α) (b : Shape) (keys : List String) (feat : String → Shape)
+    (hU : Uniform L b keys feat) (hne0 : L.members ≠ []) (sizes : List Nat) (dim : Int)
+    (pieces : List (LRes α)) (h : lazySplit L sizes dim = some pieces) :
+    ∃ d : Nat, (d : Int) = (if dim < 0 then (L.batch.length : Int) + dim else dim) ∧ d < L.batch.length ∧
+      pieces.length = sizes.length ∧
+      ∀ j (hj : j < sizes.length), 0 < sizes[j] →
+        (d = L.sd → (pieceStarts sizes 0)[j]'(by rw [pieceStarts_length]; exact hj) + sizes[j] ≤ L.members.length) →
+        ∃ r, pieces[j]? = some r ∧
+          absR r ≈ (absL L).narrow d ((pieceStarts sizes 0)[j]'(by rw [pieceStarts_length]; exact hj)) sizes[j] :=
+  split_refines L b keys feat hU hne0 sizes dim pieces h
+
+/-- **`lazy.repeat_interleave(k, dim)`** is `dense.repeat_interleave(k, dim)`: along the stack dim
+every member is listed `k` times, along another dim every member is repeated along the shifted dim. -/
+theorem repeat_interleave_is_dense [Inhabited α] (L : Lazy α) (b : Shape) (keys : List String) (feat : String → Shape)
+    (hU : Uniform L b keys feat) (hne0 : L.members ≠ []) (k : Nat) (dim : Int)
+    (L' : Lazy α) (h : lazyRepeatInterleave L k dim = some L') :
+    ∃ d : Nat, (d : Int) = (if dim < 0 then (L.batch.length : Int) + dim else dim) ∧ d < L.batch.length ∧
+      absL L' ≈ (absL L).repeatInterleave d k :=
+  repeat_interleave_refines L b keys feat hU hne0 k dim L' h
+
+/-- **`lazy.repeat(*reps)`** is `dense.repeat(*reps)`: the members are repeated by the counts of
+their own dims and the member list is replicated by the count of the stack dim. -/
+theorem repeat_is_dense [Inhabited α] (L : Lazy α) (b : Shape) (keys : List String) (feat : String → Shape)
+    (hU : Uniform L b keys feat) (hne0 : L.members ≠ []) (reps : List Nat)
+    (L' : Lazy α) (h : lazyRepeat L reps = some L') :
+    L'.sd = L.sd ∧ L'.members.length = L.members.length * at0 reps L.sd ∧ absL L' ≈ (absL L).repeat reps :=
+  repeat_refines L b keys feat hU hne0 reps L' h
+
 /-! ## stacks of stacks -/
 
 /-- **Reads of a lazy stack whose members are lazy stacks compose**: for an Ellipsis-free index
@@ -588,6 +661,38 @@ theorem getitem_stack_of_stacks_refines [Inhabited α] (Lo : Lazy2 α) (bIn : Sh
     (r2 : LRes2 α) (hr : lazyGet2 Lo ix = some r2)
     (d : TD α) (hd : (abs2 Lo).getitem ix = some d) : ReadOK2 r2 d :=
   getitem2_refines_all Lo bIn keys feat sdIn nIn hU hne0 ix hadv hp r2 hr d hd
+
+/-- **`lazy.expand(*shape)`** is `dense.expand(*shape)`: the stack dim moves by the number of new
+leading dims, the members are expanded to the target without it, and a singleton stack dim is
+expanded by listing the single member again (views: same values). -/
+theorem expand_is_dense [Inhabited α] (L : Lazy α) (b : Shape) (keys : List String) (feat : String → Shape)
+    (hU : Uniform L b keys feat) (hne0 : L.members ≠ []) (shape : List Nat)
+    (L' : Lazy α) (h : lazyExpand L shape = some L') :
+    L'.sd = shape.length + L.sd - L.batch.length ∧ absL L' ≈ (absL L).expandTo shape :=
+  expand_refines L b keys feat hU hne0 shape L' h
+
+/-- **`unsqueeze` on a stack of stacks**: the outer `_unsqueeze` calls the inner stacks' `unsqueeze`
+(shifted past the outer stack dim) and re-stacks; the result materialises to
+`dense_of_dense.unsqueeze(dim)` — the one-level argument lifted over members that are lazy stacks
+(`abs2_map`) and the one-level theorem for the inner stacks. -/
+theorem unsqueeze_stack_of_stacks [Inhabited α] (Lo : Lazy2 α) (bIn : Shape) (keys : List String) (feat : String → Shape)
+    (sdIn nIn : Nat) (hU : Uniform2 Lo bIn keys feat sdIn nIn) (hne0 : Lo.members ≠ []) (dim : Int)
+    (Lo' : Lazy2 α) (h : lazyUnsqueeze2 Lo dim = some Lo') :
+    ∃ d : Nat, (d : Int) = (if dim < 0 then (Lo.batch.length : Int) + dim + 1 else dim) ∧
+      d ≤ Lo.batch.length ∧ abs2 Lo' ≈ (abs2 Lo).unsqueeze d :=
+  unsqueeze2_refines Lo bIn keys feat sdIn nIn hU hne0 dim Lo' h
+
+/-- **`permute` on a stack of stacks** (every permutation of the batch dims, any sign spelling):
+the inner stacks are permuted by the remaining dims renumbered — with their own `_permute`, which
+moves their stack dim — and re-stacked at `argsort(dims)[stack_dim]`; the result materialises to
+`dense_of_dense.permute(dims)`. -/
+theorem permute_stack_of_stacks [Inhabited α] (Lo : Lazy2 α) (bIn : Shape) (keys : List String) (feat : String → Shape)
+    (sdIn nIn : Nat) (hU : Uniform2 Lo bIn keys feat sdIn nIn) (hne0 : Lo.members ≠ []) (dims : List Int)
+    (Lo' : Lazy2 α) (h : lazyPermute2 Lo dims = some Lo') :
+    ∃ p : List Nat, IsPerm p Lo.batch.length ∧
+      p = (dims.map fun d => if d ≥ 0 then d else (Lo.batch.length : Int) + d).map Int.toNat ∧
+      abs2 Lo' ≈ (abs2 Lo).permute p :=
+  permute2_refines Lo bIn keys feat sdIn nIn hU hne0 dims Lo' h
 
 /-! ## non-vacuity: a concrete 3-member stack (batch [2], stack dim 1, key `a`) -/
 
@@ -628,6 +733,17 @@ example : (match lazyCat [exL, exL, exL] (-2) with
 example : ((absL (lazyApply1 exL (fun x => 2 * x + 1))).leaf "a").toList = [1, 21, 41, 3, 23, 43] := by decide
 example : (match lazyApply2 exL (absL exL) (fun x y => x - y) with
     | some L' => ((absL L').leaf "a").toList | none => [7]) = [0, 0, 0, 0, 0, 0] := by decide
+-- comparisons and reductions: `(lazy > 5).all()` is false, `.any()` is true
+example : lazyAll (lazyCompareScalar exL 5 (fun x y => decide (x > y))) = false := by decide
+example : lazyAny (lazyCompareScalar exL 5 (fun x y => decide (x > y))) = true := by decide
+-- resize: `exL.repeat(2, 2)` has batch [4, 6]; `exL.split([1, 2], 1)` has two pieces (1 and 2 members)
+example : (match lazyRepeat exL [2, 2] with
+    | some L' => ((absL L').batch, L'.members.length) | none => ([], 0)) = ([4, 6], 6) := by decide
+example : ((lazySplit exL [1, 2] 1).map fun ps => ps.map fun
+    | .lazy L' => L'.members.length | _ => 99) = some [1, 2] := by decide
+example : (match lazyExpand ⟨[exM 0], 1⟩ [2, 2, 3] with
+    | some L' => (L'.sd, L'.members.length, (absL L').batch, ((absL L').leaf "a").toList) | none => (9, 0, [], []))
+    = (2, 3, [2, 2, 3], [0, 0, 0, 1, 1, 1, 0, 0, 0, 1, 1, 1]) := by decide
 -- stack of stacks: two copies of `exL` stacked at dim 0 (batch [2, 2, 3]); `lol[1, :, 2]` is
 -- `inner_1[:, 2]` = member 2 of the second inner stack
 def exL2 : Lazy2 Int := ⟨[exL, exL], 0⟩
@@ -641,5 +757,7 @@ example : Uniform2 exL2 [2] ["a"] (fun _ => []) 1 3 :=
 example : (match lazyGet2 exL2 [.int 1, Ix.full, .int 2] with
     | some r => ((absR2 r).leaf "a").toList | none => []) = [20, 21] := by decide
 example : ((abs2 exL2).getitem [.int 1, Ix.full, .int 2]).isSome = true := by decide
+example : (match lazyPermute2 exL2 [2, 0, 1] with
+    | some R => (R.sd, R.members.map (·.sd), (abs2 R).batch) | none => (99, [], [])) = (1, [0, 0], [3, 2, 2]) := by decide
 
 end TdVerif.Props.C08
